@@ -326,6 +326,53 @@ Example C13_push_subject_satisfiable :
       = ((g', n''), RSUnsupported, t', RDescs [sat_d]).
 Proof. exact push_subject_satisfiable. Qed.
 
+(* ... lifted to HISTORIES of operations: every sequence of Push / Delete of manifests with ONE subject
+   sj and Predecessors(sj) (in any order, any length) run by the client ([run_ops]) against a
+   registry without the Referrers API, from any registry state: every Push/Delete succeeds, every
+   Predecessors in between lists exactly the index of that moment ([ts_results]), the client never
+   believes the API is there, the referrers tag ends at what applyReferrerChanges yields step by step ([ts_final])
+   and Predecessors(sj) lists exactly that.  [ts_hist_ok] (Proofs/RemoteRefine.v) checks the LOCAL side
+   conditions of each operation in the state it meets, as wf_hist does for the store: accurate,
+   indexable manifest with subject sj that is new to / listed in the index (for Delete: stored); the
+   indexes read and written decode and fit MaxMetadataBytes; no digest collision between manifest,
+   old index and new index.  Satisfiable: C13_tag_schema_history_satisfiable. *)
+Theorem C13_tag_schema_history :
+  forall (H : str -> str) (parse_mt : str -> option str) (subject_of : str -> option (option desc))
+         (main other : str) (user_mts : list str) (limit : N) (skip_gc : bool)
+         (index_of : str -> option (list desc)) (p : profile),
+    (forall c, valid_digest (H c) = true) ->
+    (forall l, subject_of (gen_index l) = Some None) ->
+    parse_mt mt_index = Some mt_index ->
+    forall sj os g n rst st,
+      minv H parse_mt limit g -> p_referrers p = false -> rst <> RSSupported ->
+      valid_digest (d_dg sj) = true ->
+      let tag := ref_tag (d_dg sj) in
+      resolve_ref main tag = Some tag -> valid_digest tag = false ->
+      p_clen p = true \/ p_dighdr p = true ->
+      index_state g tag st -> NoDup (map fst (g_tags g)) ->
+      ts_hist_ok H parse_mt subject_of main other user_mts limit skip_gc index_of p sj (g, n) rst st os ->
+      exists g' n' rst' out,
+        run_ops H parse_mt subject_of main other user_mts limit skip_gc index_of (reg * N)
+                (cexch H subject_of main other p None) (g, n) rst (map (ts_op sj) os) = ((g', n'), rst', out) /\
+        map snd out = ts_results H skip_gc st os /\ rst' <> RSSupported /\
+        minv H parse_mt limit g' /\ index_state g' tag (ts_final H skip_gc st os) /\
+        NoDup (map fst (g_tags g')) /\
+        (json_ok_st index_of (ts_final H skip_gc st os) ->
+         exists n'' t',
+           tag_schema_referrers H parse_mt main user_mts limit index_of (reg * N)
+                                (cexch H subject_of main other p None) (g', n') sj
+           = ((g', n''), t', RDescs (clean_refs [] (ix_list (ts_final H skip_gc st os))))).
+Proof. exact tag_schema_history. Qed.
+Print Assumptions C13_tag_schema_history.
+
+Example C13_tag_schema_history_satisfiable :
+  (forall c, valid_digest (sat3_H c) = true) /\
+  ts_hist_ok sat3_H (fun s => Some s) sat_subject (b "app") (b "src") [] w_limit false sat3_index_of ts_profile
+             sat_sj (reg0 [], 0) RSUnknown None sat3_ops /\
+  ts_final sat3_H false None sat3_ops = None /\
+  ts_results sat3_H false None sat3_ops = [ROk; RDescs [sat3_d]; ROk].
+Proof. exact tag_schema_history_satisfiable. Qed.
+
 (* (JSON decoding is the parameter index_of: the theorems above ask it to invert gen_index on the two
    indexes involved -- the one read and the one written --, not on all lists: gen_index does not
    escape, a hypothesis for ALL descriptor lists would be unsatisfiable.  The Example below
